@@ -29,7 +29,7 @@ def pick_and_perturb(rng, case, kind):
     feed = c2["feed"]
 
     def bump(f, factor=None):
-        k = factor or rng.choice([0.25, 3.0, 7.0])
+        k = factor or rng.choice([0.25, 3.0, 7.0, 40.0])
         f["results_dem"] = int(f["results_dem"] * k) + rng.randint(1, 9)
         f["results_gop"] = int(f["results_gop"] * (k / 2 + 0.3)) + rng.randint(1, 9)
         f["results_turnout"] = f["results_dem"] + f["results_gop"] + rng.randint(0, 5)
@@ -95,7 +95,15 @@ def run_captured(case):
 def worker(job):
     seed, pi, kind = job
     rng = random.Random(seed)
-    case = gen.gen_case(rng, pi_method=pi, n_unexpected=2, avoid_boot_nan_key=True)
+    if kind == "partial-count-large":
+        # large gaussian election: groups with their own calibration model and groups that fall back to a coarser one; the
+        # perturbed partial count is made large so that the counted-vote floor of its own groups binds
+        case = gen.gen_case(rng, pi_method="gaussian", n_unexpected=1, n_units=260, n_states=2, frac_reporting=0.7, estimands=["dem"], alphas=[0.7],
+                            aggregates=["postal_code", "county_classification", "county_fips", "unit"])
+        kind = "partial-count"
+        job = (seed, pi, "partial-count-large")
+    else:
+        case = gen.gen_case(rng, pi_method=pi, n_unexpected=2, avoid_boot_nan_key=True)
     if pi == "bootstrap" and ("county_classification" in case["params"]["aggregates"] or (case["office"] == "H" and "district" not in case["params"]["aggregates"])):
         case["params"]["aggregates"] = [a for a in case["params"]["aggregates"] if a != "county_classification"]
         if case["office"] == "H" and "district" not in case["params"]["aggregates"]:
@@ -222,6 +230,8 @@ def run(chk):
         for pi in ("nonparametric", "gaussian", "bootstrap"):
             for kind in KINDS:
                 jobs.append((rng.randint(0, 2**31), pi, kind))
+    for _ in range(3 if chk.tier == "quick" else 20):
+        jobs.append((rng.randint(0, 2**31), "gaussian", "partial-count-large"))
     outs = core.pmap(worker, jobs)
     n_ok = 0
     for o in outs:
